@@ -55,8 +55,6 @@ def units(tier, seed):
 
 def check_code(acc, v):
     ns = loader.load()
-    from tpmstream.io.pretty.unmarshal import pretty_attrs
-
     T = ns.TYPES["TPM_RC"]
     case = {"harness": "rc", "value": v}
     txt, cls, n, name = expect(v)
@@ -83,7 +81,9 @@ def check_code(acc, v):
         acc.violation({"clause": "value", "class": cls}, case, f"int / to_bytes of TPM_RC({v:#x})")
     ev = ns.MarshalEvent(ns.Path(ns.PathNode("")) / ns.PathNode("responseCode"), T, x)
     try:
-        rows = [ANSI.sub("", r) for r in pretty_attrs(ev)]
+        from ..impl import bit_rows
+
+        rows = [ANSI.sub("", r) for r in bit_rows(ev)]
     except Exception as e:  # noqa: BLE001
         acc.violation({"clause": "rows-raise", "class": cls, "exc": type(e).__name__}, case, f"bit rows of {v:#x}: {type(e).__name__}: {e}")
         return
